@@ -39,15 +39,16 @@ static inline SpecTy cg_st(Type *t) {
 }
 
 // ---------------------------------------------------------------- ghost value table
-#define CG_NCHILD 4
+#define CG_NCHILD 10
 Node *cg_child[CG_NCHILD];       /* abstract children of the node under proof */
 uint64_t cg_val[CG_NCHILD + 1];  /* their values (canonical in their type; floats as bit patterns); [CG_NCHILD] = root */
 int cg_child_at[CG_NCHILD];      /* event sequence number at which each child was evaluated (-1: never) */
 Node *cg_root;
 int cg_depth_base;
+void *cg_extra;                /* harness-owned object the node under proof may write (e.g. argument nodes' pass_by_stack) */
 _Bool cg_check_val;            /* the root's value is specified (false for balance-only jobs) */               /* m.sp == depth + cg_depth_base */
 
-static inline int cg_idx(Node *n) { return n == cg_child[0] ? 0 : n == cg_child[1] ? 1 : n == cg_child[2] ? 2 : n == cg_child[3] ? 3 : CG_NCHILD; }
+static inline int cg_idx(Node *n) { for (int i = 0; i < CG_NCHILD; i++) if (n == cg_child[i]) return i; return CG_NCHILD; }
 uint64_t verif_val(Node *n) { return cg_val[cg_idx(n)]; }
 
 // Register convention: where the value of an expression of type ty is after gen_expr.
@@ -78,9 +79,10 @@ __CPROVER_requires(!m.unknown && !m.bad && 0 <= m.sp && m.sp <= GM_STK - 6 && m.
 __CPROVER_requires(0 <= m.x87 && m.x87 <= 6 && 0 <= m.nev && m.nev < GM_EVENTS)
 __CPROVER_assigns(!m.skip && !m.halt: m, depth, gm_rz, __CPROVER_object_whole(gm_stk), gm_skip_len, __CPROVER_object_whole(gm_skip_text))
 __CPROVER_assigns(!m.skip && !m.halt && node == cg_root: __CPROVER_object_whole(gm_dm), __CPROVER_object_whole(cg_child_at), __CPROVER_object_whole(gm_ev), __CPROVER_object_whole(gm_lab))
-__CPROVER_assigns(!m.skip && !m.halt && node == cg_child[0]: cg_child_at[0]; !m.skip && !m.halt && node == cg_child[1]: cg_child_at[1]; !m.skip && !m.halt && node == cg_child[2]: cg_child_at[2]; !m.skip && !m.halt && node == cg_child[3]: cg_child_at[3])
+__CPROVER_assigns(!m.skip && !m.halt && node == cg_root && cg_extra != 0: __CPROVER_object_whole(cg_extra))
+__CPROVER_assigns(!m.skip && !m.halt && node == cg_child[0]: cg_child_at[0]; !m.skip && !m.halt && node == cg_child[1]: cg_child_at[1]; !m.skip && !m.halt && node == cg_child[2]: cg_child_at[2]; !m.skip && !m.halt && node == cg_child[3]: cg_child_at[3]; !m.skip && !m.halt && node == cg_child[4]: cg_child_at[4]; !m.skip && !m.halt && node == cg_child[5]: cg_child_at[5]; !m.skip && !m.halt && node == cg_child[6]: cg_child_at[6]; !m.skip && !m.halt && node == cg_child[7]: cg_child_at[7]; !m.skip && !m.halt && node == cg_child[8]: cg_child_at[8]; !m.skip && !m.halt && node == cg_child[9]: cg_child_at[9])
 __CPROVER_ensures(!m.unknown && !m.bad)
-__CPROVER_ensures(node == cg_root || (m.skip == __CPROVER_old(m.skip) && m.halt == __CPROVER_old(m.halt) && m.nlab == __CPROVER_old(m.nlab)))
+__CPROVER_ensures(node == cg_root || (m.skip == __CPROVER_old(m.skip) && m.halt == __CPROVER_old(m.halt) && m.nlab == __CPROVER_old(m.nlab) && m.call_seen == __CPROVER_old(m.call_seen)))
 __CPROVER_ensures(m.sp == __CPROVER_old(m.sp) && depth == __CPROVER_old(depth))
 __CPROVER_ensures(CG_INACTIVE || m.x87 == __CPROVER_old(m.x87) + cg_x87_delta(node->ty))
 __CPROVER_ensures(CG_INACTIVE || (node == cg_root && !cg_check_val) || m.skip || m.halt || cg_holds(node->ty, verif_val(node)))
@@ -98,9 +100,10 @@ __CPROVER_requires(!m.unknown && !m.bad && 0 <= m.sp && m.sp <= GM_STK - 6 && m.
 __CPROVER_requires(0 <= m.x87 && m.x87 <= 6 && 0 <= m.nev && m.nev < GM_EVENTS)
 __CPROVER_assigns(!m.skip && !m.halt: m, depth, gm_rz, __CPROVER_object_whole(gm_stk), gm_skip_len, __CPROVER_object_whole(gm_skip_text))
 __CPROVER_assigns(!m.skip && !m.halt && node == cg_root: __CPROVER_object_whole(gm_dm), __CPROVER_object_whole(cg_child_at), __CPROVER_object_whole(gm_ev), __CPROVER_object_whole(gm_lab))
-__CPROVER_assigns(!m.skip && !m.halt && node == cg_child[0]: cg_child_at[0]; !m.skip && !m.halt && node == cg_child[1]: cg_child_at[1]; !m.skip && !m.halt && node == cg_child[2]: cg_child_at[2]; !m.skip && !m.halt && node == cg_child[3]: cg_child_at[3])
+__CPROVER_assigns(!m.skip && !m.halt && node == cg_root && cg_extra != 0: __CPROVER_object_whole(cg_extra))
+__CPROVER_assigns(!m.skip && !m.halt && node == cg_child[0]: cg_child_at[0]; !m.skip && !m.halt && node == cg_child[1]: cg_child_at[1]; !m.skip && !m.halt && node == cg_child[2]: cg_child_at[2]; !m.skip && !m.halt && node == cg_child[3]: cg_child_at[3]; !m.skip && !m.halt && node == cg_child[4]: cg_child_at[4]; !m.skip && !m.halt && node == cg_child[5]: cg_child_at[5]; !m.skip && !m.halt && node == cg_child[6]: cg_child_at[6]; !m.skip && !m.halt && node == cg_child[7]: cg_child_at[7]; !m.skip && !m.halt && node == cg_child[8]: cg_child_at[8]; !m.skip && !m.halt && node == cg_child[9]: cg_child_at[9])
 __CPROVER_ensures(!m.unknown && !m.bad)
-__CPROVER_ensures(node == cg_root || (m.skip == __CPROVER_old(m.skip) && m.halt == __CPROVER_old(m.halt) && m.nlab == __CPROVER_old(m.nlab)))
+__CPROVER_ensures(node == cg_root || (m.skip == __CPROVER_old(m.skip) && m.halt == __CPROVER_old(m.halt) && m.nlab == __CPROVER_old(m.nlab) && m.call_seen == __CPROVER_old(m.call_seen)))
 __CPROVER_ensures(m.sp == __CPROVER_old(m.sp) && depth == __CPROVER_old(depth))
 __CPROVER_ensures(m.x87 == __CPROVER_old(m.x87))
 __CPROVER_ensures(CG_INACTIVE || node == cg_root || (m.nev == __CPROVER_old(m.nev) + 1 && cg_child_at[cg_idx(node)] == __CPROVER_old(m.nev)))
@@ -126,12 +129,18 @@ static inline void cg_init(void) {
   cg_types();
   cg_tok.file = &cg_file; cg_file.file_no = 1; cg_tok.line_no = 1;
   for (int i = 0; i < CG_NCHILD; i++) { cg_child_at[i] = -1; cg_child[i] = 0; cg_val[i] = 0; }
-  cg_val[CG_NCHILD] = 0; cg_root = 0; cg_check_val = 1;   /* DFCC leaves file-scope objects nondeterministic at harness entry */
+  cg_val[CG_NCHILD] = 0; cg_root = 0; cg_check_val = 1; cg_extra = 0;
+  // file-scope tables of string pointers lose their initialisers under DFCC: re-create codegen.c's argument register tables
+  // (the real initialisers are compared with these by job C06 argreg-tables, plain mode)
+  argreg8[0] = "%dil"; argreg8[1] = "%sil"; argreg8[2] = "%dl"; argreg8[3] = "%cl"; argreg8[4] = "%r8b"; argreg8[5] = "%r9b";
+  argreg16[0] = "%di"; argreg16[1] = "%si"; argreg16[2] = "%dx"; argreg16[3] = "%cx"; argreg16[4] = "%r8w"; argreg16[5] = "%r9w";
+  argreg32[0] = "%edi"; argreg32[1] = "%esi"; argreg32[2] = "%edx"; argreg32[3] = "%ecx"; argreg32[4] = "%r8d"; argreg32[5] = "%r9d";
+  argreg64[0] = "%rdi"; argreg64[1] = "%rsi"; argreg64[2] = "%rdx"; argreg64[3] = "%rcx"; argreg64[4] = "%r8"; argreg64[5] = "%r9";   /* DFCC leaves file-scope objects nondeterministic at harness entry */
 }
 // arbitrary-but-consistent machine entry state: symbolic registers, sp0 occupied slots with symbolic contents
 #define CG_ENTRY_STATE(sp0_) do { \
   GM nd_m_; m = nd_m_; m.unknown = 0; m.bad = 0; m.skip = 0; m.nev = 0; m.x87 = 0; m.flags_valid = 0; m.locked_writes = 0; \
-  m.plain_writes_dm = 0; m.halt = 0; m.nlab = 0; m.skip_ev = -1; m.bj_label = -1; m.bj_at = -1; m.cw_trunc = 0; m.cw_saved = 0; m.rsp_adjust = 0; m.sp = (sp0_); depth = (sp0_); cg_depth_base = 0; \
+  m.plain_writes_dm = 0; m.call_seen = 0; m.halt = 0; m.nlab = 0; m.skip_ev = -1; m.bj_label = -1; m.bj_at = -1; m.cw_trunc = 0; m.cw_saved = 0; m.rsp_adjust = 0; m.sp = (sp0_); depth = (sp0_); cg_depth_base = 0; \
   m.st_int[0] = m.st_int[1] = m.st_int[2] = m.st_int[3] = m.st_int[4] = m.st_int[5] = m.st_int[6] = m.st_int[7] = 0; \
   } while (0)
 #endif
